@@ -411,6 +411,9 @@ compile:
 
 	task.Status.Print(m.Addr)
 	if err := g.Wait(); err != nil {
+		// Return the procs: the machine offered above is otherwise never
+		// released, and its capacity and the session's demand leak.
+		m.Done(procs, err)
 		task.Errorf("failed to commit combiner: %v", err)
 		return
 	}
